@@ -275,6 +275,10 @@ pub fn gen_graph(rng: &mut SplitMix, thorough: bool) -> GraphSpec {
         // function (the normalisation overflows; the accept/reject decision and the
         // J values must not care)
         let heavy_mode = ne >= 9 && rng.chance(1, 3);
+        // huge weights (beyond 171.6 the gamma function of a weight overflows; a few
+        // weights of 40-130 overflow the product): legal "positive finite weights",
+        // the normalisation becomes inf or inf/inf = NaN, the decision must not care
+        let huge_mode = rng.chance(1, 25);
         let mut es: Vec<EdgeSpec> = edges
             .iter()
             .map(|&(a, b)| {
@@ -290,7 +294,9 @@ pub fn gen_graph(rng: &mut SplitMix, thorough: bool) -> GraphSpec {
                     _ => (w_uniform + *rng.pick(&[0.0, 0.0, 0.1, -0.1, 0.3])).max(0.05),
                 };
                 // occasionally a very small (but positive, finite) weight: huge J values
-                let w = if heavy_mode {
+                let w = if huge_mode {
+                    *rng.pick(&[200.0, 120.0, 130.0, 110.0, 172.0, 400.0, 1e3, 1e6, 40.0, 100.0, 171.5, 1e15])
+                } else if heavy_mode {
                     *rng.pick(&[20.0, 19.5, 19.0, 18.9, 20.0])
                 } else if tiny_mode && rng.chance(1, 2) {
                     *rng.pick(&[1e-6, 9.5367431640625e-7, 3e-5, 2.44140625e-4])
